@@ -237,6 +237,7 @@ class RDGridSpace :
         Returns the volume of the cell at the given position.
         """
 
+        self.get_cell_index(position) # raises if the position is outside the grid
         return self.cell_vol.copy()
     
     def get_cell_env(self, position) :
